@@ -977,7 +977,7 @@ func TestVerif_C07(t *testing.T) {
 	r.Assume("SHA-256 truncated to 128 bits identifies byte strings / field tuples in the pool; a collision of it is taken as impossible")
 	r.Assume("only snapshot version 2 can be hashed or encoded through the exported API; other versions are probed through the exported payload encoder only")
 	st := &vC07State{r: r, rng: r.Rand(), g: vC07NewPool(), l: vC07NewPool(), poolCap: 1_500_000}
-	n := r.N(1500, 22000)
+	n := r.N(2500, 22000)
 	for i := 0; i < n; i++ {
 		st.caseNo = i
 		st.runCase()
